@@ -15,6 +15,9 @@
      than or equal to the lesser of ... maximum-immutable-share-size or
      available-space")
 
+   * a restart of the node with another readonly_storage setting (Reconfigure):
+     the way a server that holds shares becomes read-only
+
    As in Storage.tla every entry point is an operator over the explicit server
    state S.  The advisories are a set `adv` of report records next to S.  A
    report is a file on the same disk as the shares: writing one makes the disk
